@@ -103,11 +103,75 @@ class World(SessionWorld):
         if err is not None or self.session._session_id != 77001:
             raise SetupViolation("session-did-not-join-on-WELCOME", repr(err)[:200])
         self.ops_left = 3 + ch.choose(12, "nops")
+        if ch.flag("registers-a-decorated-object-first", 0.2):
+            self.register_object()
         # the application maps an error URI to an exception class of its own; whether a given ERROR fits its constructor
         # is not in the application's hands - the request completes with the error either way
         self.cfg["defines"] = ch.flag("session-defines-an-exception-class", 0.35)
         if self.cfg["defines"]:
             self.session.define(StrictErr, "com.example.error.strict")
+
+    def register_object(self):
+        """register(obj[, options]): one REGISTER per decorated method, in the order of the method names, each with the
+        options its decorator gave or else the options passed to register() - and the result is the list of registrations"""
+        from autobahn import wamp
+        from autobahn.wamp import types
+        ch = self.run.ch
+        M = self.M
+        variants = {"none": (None, {}), "rr": (types.RegisterOptions(invoke="roundrobin"), {"invoke": "roundrobin"}),
+                    "pfx": (types.RegisterOptions(match="prefix", concurrency=2), {"match": "prefix", "concurrency": 2})}
+        picks = [ch.pick(("none", "rr", "pfx"), "decorator-options:%d" % i) for i in range(3)]
+        default = ch.pick(("none", "rr", "pfx"), "register()-options")
+
+        class Obj:
+            @wamp.register("com.example.obj.alpha", options=variants[picks[0]][0])
+            def alpha(self, *a, **k):
+                return 1
+
+            @wamp.register("com.example.obj.beta", options=variants[picks[1]][0])
+            def beta(self, *a, **k):
+                return 2
+
+            @wamp.register("com.example.obj.gamma", options=variants[picks[2]][0])
+            def gamma(self, *a, **k):
+                return 3
+        obj = Obj()
+        n0 = len(self.t.sent)
+        first = self.next_id()
+        self.run.probe("decorated-object-registered")
+        self.run.log("app", "register(obj)", picks, default)
+        try:
+            fut = self.call(self.session.register, obj, None, variants[default][0])
+        except Exception as e:  # noqa
+            self.run.violate("C04.one-request", "api-raised:register-object:%s" % type(e).__name__, repr(e))
+            return
+        w = self.fw.watch(fut)
+        self.settle()
+        new = self.t.sent[n0:]
+        want = []
+        rid = first
+        for name, pk in zip(("alpha", "beta", "gamma"), picks):
+            wire = variants[pk][1] if pk != "none" else variants[default][1]
+            want.append([64, rid, wire, "com.example.obj.%s" % name])
+            rid = 1 if rid >= MAXID else rid + 1
+        got = [jsonish(m.marshal()) for m in new]
+        if got != jsonish(want):
+            what = "request-id" if [g[1] for g in got if len(g) > 1] != [x[1] for x in want] else "content"
+            self.run.violate("C04.one-request", "wrong-%s:register-object" % what, "sent %r expected %r" % (got, want))
+            self.violated = True
+            return
+        self.prev_id = want[-1][1]
+        for i, x in enumerate(want):
+            exc = self.deliver(M.Registered(x[1], 880000 + i))
+            if exc is not None:
+                self.run.violate("C04.own-reply", "legal-reply-raised:Registered:%s" % type(exc).__name__, repr(exc))
+        self.settle()
+        st = w.state()
+        ok = st[0] == "ok" and [getattr(r_, "id", None) for r_ in st[1]] == [880000, 880001, 880002] and \
+            [getattr(r_, "procedure", None) for r_ in st[1]] == [x[3] for x in want]
+        if not ok:
+            self.run.violate("C04.own-reply", "register-object-result", repr(st)[:200])
+        self.sent_base = len(self.t.sent)
 
     sync_reply_for = None
     pending_alloc = None
